@@ -4,7 +4,7 @@ import traceback
 
 from . import base
 
-MODULES = ['flags', 'chain', 'core', 'globc', 'matchc', 'walkc', 'more', 'fsmatch', 'small', 'iterc', 'splitc', 'parserc', 'helpersc']
+MODULES = ['flags', 'chain', 'core', 'globc', 'matchc', 'walkc', 'more', 'fsmatch', 'small', 'iterc', 'splitc', 'parserc', 'helpersc', 'splitscan']
 
 
 def all_contracts():
